@@ -78,12 +78,19 @@ fsv_orders(const uint64_t* rec, const uint64_t* rcount, uint64_t* donors, uint64
     load_state(impl, rec, rcount, nullptr);
 #if FSV_SINGLE
     impl.compute_donors();
-    impl.compute_dfs_indices_bottomup();
 #else
     multi_donors(impl);
+#endif
+#if !defined(FSV_PART) || FSV_PART == 1
+#if FSV_SINGLE
+    impl.compute_dfs_indices_bottomup();
+#else
     impl.compute_dfs_indices_topdown();
 #endif
+#endif
+#if !defined(FSV_PART) || FSV_PART == 2
     impl.compute_bfs_indices_bottomup();
+#endif
     for (int i = 0; i < FSV_N; i++)
     {
         dcount[i] = impl.m_donors_count(i);
